@@ -570,6 +570,21 @@ def rule_taylor(rep: Report, repo: Repo):
         built = _lbl(o.body, acc_)
         if built is not None and len(built[2]) == 1 and not built[2][0][0] and isinstance(built[2][0][1], ast.BinOp) and isinstance(built[2][0][1].op, ast.Pow):
             cands.append((built[0], built[1], built[2][0][1]))
+    # ... or a running product: `m = 1; for s, p in IT: m = m * s**p` (also `m *= s**p`)
+    for lp_ in [x for x in own_nodes(o) if isinstance(x, ast.For) and not x.orelse and len(x.body) == 1]:
+        st_ = lp_.body[0]
+        pw_ = None
+        if isinstance(st_, ast.AugAssign) and isinstance(st_.op, ast.Mult) and isinstance(st_.target, ast.Name) and isinstance(st_.value, ast.BinOp) \
+                and isinstance(st_.value.op, ast.Pow):
+            pw_ = st_.value
+        elif isinstance(st_, ast.Assign) and len(st_.targets) == 1 and isinstance(st_.targets[0], ast.Name) and isinstance(st_.value, ast.BinOp) \
+                and isinstance(st_.value.op, ast.Mult):
+            l_, r_ = st_.value.left, st_.value.right
+            for acc_, fac_ in ((l_, r_), (r_, l_)):
+                if norm(acc_) == st_.targets[0].id and isinstance(fac_, ast.BinOp) and isinstance(fac_.op, ast.Pow):
+                    pw_ = fac_
+        if pw_ is not None:
+            cands.append((lp_.target, lp_.iter, pw_))
     if len(cands) != 1:
         raise AnalysisError(R, f"op_eval: the factors symbol**order of the monomial were not found as one comprehension / one appending loop ({len(cands)} candidates)")
     tgt_, it_, elt_ = cands[0]
